@@ -9,6 +9,7 @@ pub mod c02;
 pub mod c03;
 pub mod c04;
 pub mod c05;
+pub mod c05b;
 pub mod c06;
 pub mod c07;
 pub mod c08;
@@ -68,6 +69,7 @@ pub fn replay(f: &Failure) -> i32 {
         "c03_tp" => crate::core::replay_case(f, c03::case_tp),
         "c04" => crate::core::replay_case(f, c04::case),
         "c05" => crate::core::replay_case(f, c05::case),
+        "c05b-foreign-peer" => crate::core::replay_case(f, c05b::case),
         "c06" => crate::core::replay_case(f, c06::case),
         "c07" => crate::core::replay_case(f, c07::case),
         "c08" => crate::core::replay_case(f, c08::case),
